@@ -62,6 +62,7 @@ class Contract:
         self.modifies = []
         self.raises = []
         self.loops = {}
+        self.loop_ghosts = {}      # loop key -> {ghost name -> (init expr, step expr)}
         self.call_ghosts = {}
         self.call_behaviors = {}
         self.returns = "py"
@@ -191,6 +192,12 @@ def load_file(path, modname):
                 c.fresh_result = _lit(val)
             elif nm == "loops":
                 c.loops = _dict_of(val, _lam)
+            elif nm == "loop_ghosts":
+                def pair(v):
+                    if not (isinstance(v, ast.Tuple) and len(v.elts) == 2):
+                        raise ValueError("loop ghost must be (init, step)")
+                    return (_lam(v.elts[0]), _lam(v.elts[1]))
+                c.loop_ghosts = _dict_of(val, lambda v: _dict_of(v, pair))
             elif nm == "call_ghosts":
                 c.call_ghosts = _dict_of(val, lambda v: _dict_of(v, _lam))
             elif nm == "call_behaviors":
